@@ -20,8 +20,12 @@ def parse_case(line):
     """-> dict: units, sites {sid: (des, usage)}, canon {body id: declaration id}"""
     units = line.split("|")
     sites = {}
-    for m in re.finditer(r"(?:^|[ ,])S(\d+):(\d+):([vct][^ ,|]*)", line):
+    for m in re.finditer(r"(?:^|[ ,])S(\d+):(\d+):([vctx][^ ,|]*)", line):
         sites[m.group(1)] = (int(m.group(2)), m.group(3))
+        mx = re.match(r"x[nc](\d+)\.(\d+)", m.group(3))
+        if mx:
+            # the actual of the call is a use site of its own (same line)
+            sites[mx.group(1)] = (int(mx.group(2)), "xi")
     canon = {}
     for m in re.finditer(r"F(\d+):\d+:[^ ~@]*@(\d+)~", line):
         canon[m.group(1)] = m.group(2)
@@ -75,6 +79,13 @@ def coq_item(s):
             us = "(UVal %s)" % coq_ty(u[1:])
         elif u[0] == "t":
             us = "UType"
+        elif u[0] == "x":
+            x, t = u[2:].split("/")
+            g = x.split(".")
+            if u[1] == "n":
+                us = "(UCallX (XName %s %s) %s)" % (g[0], g[1], coq_ty(t))
+            else:
+                us = "(UCallX (XCall %s %s %s) %s)" % (g[0], g[1], "AUniv" if g[2] == "u" else "(ATy %s)" % coq_ty(g[2]), coq_ty(t))
         else:
             a, t = u[1:].split("/")
             us = "(UCall %s %s)" % ("AUniv" if a == "u" else "(ATy %s)" % coq_ty(a), coq_ty(t))
@@ -105,7 +116,7 @@ def coq_expected(model_line):
     head, sites = model_line.split(";", 1)
     items = []
     for s in sites.split():
-        sid, spec, nd, nv, ct, cc, ut, uc = s.split(":")
+        sid, spec, nd, nv, ct, cc, ut, uc = s.split(":")[:8]
         ans = {"C": "AConflict", "U": "AUndeclared", "E": "AError"}.get(spec[0]) if spec[0] != "D" else "(ADecl %s)" % spec[1:]
         tgt = "None" if ct == "-" else "(Some %s)" % ct
         cls = {"OK": "MOk", "CONFLICT": "MConflict", "UNDECL": "MUndeclared", "ERROR": "MError"}[cc]
@@ -221,7 +232,8 @@ class Cmp:
                     im[f[0]] = (f[1], f[2], f[3])
                 nontrivial = False
                 for s in msites.split():
-                    sid, spec, nd, nv, ct, cc, ut, uc = s.split(":")
+                    sid, spec, nd, nv, ct, cc, ut, uc = s.split(":")[:8]
+                    stage = s.split(":")[8] if s.count(":") >= 8 else None
                     des, usage = pc["sites"].get(sid, (0, "?"))
                     it, ic, codes = im.get(sid, ("?", "?", "?"))
                     ct = pc["canon"].get(ct, ct)
@@ -229,8 +241,10 @@ class Cmp:
                         ct = "EXT"
                     self.bump("sites")
                     self.bump("spec_" + ("resolved" if spec[0] == "D" else spec.lower()))
+                    xline = usage[0] == "x"
                     kind = "char" if is_char_site(des, usage) else ("operator" if 20 <= des < 30 else
-                                                                     {"v": "value", "c": "call", "t": "typemark"}.get(usage[0], "?"))
+                                                                     {"v": "value", "c": "call", "t": "typemark",
+                                                                      "x": "call_with_site_actual" if usage != "xi" else "actual"}.get(usage[0], "?"))
                     self.bump("kind_" + kind)
                     nd, nv = int(nd), int(nv)
                     if spec[0] == "D":
@@ -251,14 +265,29 @@ class Cmp:
                         self.report("model: cached lookup differs from lookup_uncached at site %s although the trace is "
                                     "disciplined" % sid, c, None, {"model": s}, no_input=True)
                     # the theorems say: model (uncached) == specification on the family, character-literal sites excepted
-                    uspec_ok = (ut == spec[1:] and uc == "OK") if spec[0] == "D" else (uc == {"CONFLICT": "CONFLICT", "UNDECL": "UNDECL", "ERROR": "ERROR"}[spec])
+                    if xline:
+                        uspec_ok = (ut == spec[1:] and uc == "OK") if spec[0] == "D" else (uc != "OK")
+                    else:
+                        uspec_ok = (ut == spec[1:] and uc == "OK") if spec[0] == "D" else (uc == {"CONFLICT": "CONFLICT", "UNDECL": "UNDECL", "ERROR": "ERROR"}[spec])
                     if not uspec_ok and not is_char_site(des, usage):
                         self.bump("model_vs_spec")
                         self.report("Coq model and Coq specification disagree at site %s (C07_resolution_refines_spec excludes this "
                                     "inside the family: the family predicate or the elaborator glue is wrong)" % sid,
                                     c, None, {"model": s}, no_input=True)
-                    spec_ok = (it == spec[1:] and ic == "OK") if spec[0] == "D" else (ic == {"CONFLICT": "CONFLICT", "UNDECL": "UNDECL", "ERROR": "ERROR"}[spec])
-                    model_ok = (it == ct and ic == cc)
+                    if xline:
+                        # a call and its actual share the line: the complete context resolves as a whole or the line is in
+                        # error; the error class and the references left behind on an erroneous line are not compared
+                        spec_ok = (it == spec[1:] and ic == "OK") if spec[0] == "D" else (ic != "OK")
+                        model_ok = (it == ct and ic == "OK") if cc == "OK" else (ic != "OK")
+                        if spec[0] == "D" and usage == "xi":
+                            self.bump("actual_resolved")
+                            self.bump("actual_resolved_selecting_stage_" + {"g0": "only_candidate", "g1": "formals", "g2": "actual_types",
+                                                                           "g3": "return_type"}.get(stage, "none"))
+                            if nd + nv >= 2:
+                                self.bump("actual_resolved_among_several")
+                    else:
+                        spec_ok = (it == spec[1:] and ic == "OK") if spec[0] == "D" else (ic == {"CONFLICT": "CONFLICT", "UNDECL": "UNDECL", "ERROR": "ERROR"}[spec])
+                        model_ok = (it == ct and ic == cc)
                     site = {"sid": sid, "designator": des, "usage": usage, "spec": spec, "model": "%s:%s" % (ct, cc),
                             "impl": "%s:%s:%s" % (it, ic, codes), "direct": nd, "use_visible": nv}
                     if spec_ok and model_ok:
@@ -353,7 +382,10 @@ def main(tier, replay=None):
         "operators \"-\" \"+\" (overloadable), enumeration literals incl. character literals, enumeration and integer types; "
         "identifiers drawn from 4 value names and 3 type names so that homographs are frequent; use clauses `use l.p.all` / "
         "`use l.p.name` in context clauses and declarative parts; use sites: name as value, call with a universal or typed actual, "
-        "unary operator, type mark, character literal, recursive call; 70% of the sites are biased towards a probably visible "
+        "unary operator, type mark, character literal, recursive call, call whose actual is itself a use site (overloaded "
+        "literal / constant name or nested overloaded call; functions are frequently overloaded by result type only so that "
+        "each stage of `disambiguate` - only candidate, formals, actual types, return type - is the selecting one); 70% of the "
+        "sites are biased towards a probably visible "
         "declaration. Shape restrictions of the generator: types are declared in packages only and type marks in declarations "
         "are selected names (so only the use-site name is looked up on a line), operator functions take BOOLEAN or enumeration "
         "operands (no predefined operator competes), a package refers to types of earlier packages only. Excluded from the "
@@ -370,6 +402,10 @@ def main(tier, replay=None):
         "disambiguation == unique fitting candidate. NOT proved, tested instead on every generated program (model vs spec at every "
         "site, plus a vm_compute sample inside Coq): that the frames the elaborator has built at a site are `point_scope` of the "
         "chain the reference scan has built there (the two scans walk the same flat item list in lockstep)",
+        "calls whose actual is itself a use site (overloaded literal / nested overloaded call): Scope.resolve_x (unique interpretation "
+        "of the complete context) vs Overload.site_result_x (staged disambiguate with the actual's ExpressionType; the actual's "
+        "reference comes from the check_call of the selecting stage) is TESTED at every such site, not proved; on an erroneous line "
+        "of that kind only the presence of an error is compared, not its class nor the references left behind",
     ]
     res.coverage["partial"] = False
     res.assumptions = [
